@@ -283,9 +283,9 @@ def enclosing(sf, line):
 
 def check_direct_sum(w, rep):
     """ad of a direct sum is block diagonal in factor order, on the factors' own slices.  Products with a non-abelian
-    factor in second and third position are included: an offset table that is wrong from the second factor on is
+    factor in second and third position, and one that repeats the same non-abelian factor, are included: an offset table that is wrong from the second factor on is
     invisible when the later factors are R^n (their ad blocks are zero)."""
-    for names in (["SO3Mrp", "R3"], ["R3", "SO3Quat"], ["SE2", "SO3Mrp", "SE3Mrp"]):
+    for names in (["SO3Mrp", "R3"], ["R3", "SO3Quat"], ["SE2", "SO3Mrp", "SE3Mrp"], ["SO3Quat", "SO3Quat"]):
         label = " x ".join(names)
         G = w.G(names[0])
         for nm in names[1:]:
@@ -345,5 +345,8 @@ def run(w, rep, tier):
     # negative arguments: the series-table rule (same formula on both branches, |x| < eps) is a necessary condition
     from .c06 import check_table
     check_table(w, rep, rule="C04.table")
+    # ... and the MRP exp it is evaluated on goes through shadow_if_necessary, which must select -r/|r|^2 (same rotation)
+    from .c02 import check_shadow_invariance
+    check_shadow_invariance(w, rep, RULE="C04.table")
     rep.undecided_clause("Ad_exp(x) = expm(ad_x) (transcendental); only the series-table condition it needs is decided (C04.table)")
     rep.undecided_clause("conjugation/homomorphism clauses for the DCM parameterisation (needs orthonormality of nine free symbols) and wherever the report says n/a")
